@@ -460,7 +460,11 @@ Fixpoint dedup (l : list str) (seen : list str) : list str :=
 
 (* (exec fuel (stmt…)) ↦ (outside) — not in psfrag
                         | (undefined) — out of fuel or a run-time error (eval_expr / a zero step undefined)
-                        | (globals ("name" value)…) — the final environment *)
+                        | (globals ("name" value)…) — the final environment
+   (lexec fuel (stmt…)): the same for the scoped semantics lx_l on lpfrag, from
+   the environment [[]]; the names are looked up in the final environment
+   (its only frame left is the globals: a result with another number of
+   frames is reported as (frames n)) *)
 Definition exec_case (x : sx) : sx :=
   match x with
   | Lst [Sym t; Int fuel; Lst stmts] =>
@@ -476,6 +480,22 @@ Definition exec_case (x : sx) : sx :=
                                              | Some v => [Lst [Str n; enc_value 50 v]]
                                              | None => []
                                              end) (dedup (names_slist p) []))
+                 | _ => Lst [Sym (s_ "undefined")]
+                 end
+        end
+      else if str_eqb t (s_ "lexec") then
+        match dec_program 400 stmts with
+        | None => Sym (s_ "decode-error")
+        | Some p =>
+            if negb (lpfrag p) then Lst [Sym (s_ "outside")]
+            else match lx_l (Z.to_nat fuel) p [[]] with
+                 | Some ([g], false) =>
+                     Lst (Sym (s_ "globals") ::
+                          flat_map (fun n => match alook n g with
+                                             | Some v => [Lst [Str n; enc_value 50 v]]
+                                             | None => []
+                                             end) (dedup (names_slist p) []))
+                 | Some (env, false) => Lst [Sym (s_ "frames"); Int (Z.of_nat (List.length env))]
                  | _ => Lst [Sym (s_ "undefined")]
                  end
         end
